@@ -581,6 +581,17 @@ def load_program(repo='/repo', scratch=None, deps=('url-build-parse', 'url-searc
     os.makedirs(scratch, exist_ok=True)
     t0 = time.time()
     prog = Program(); info = {'mir_lines': {}, 'mir_sha256': {}}
+    import fcntl
+    lock = open(os.path.join(scratch, '.mirse.lock'), 'w')
+    fcntl.flock(lock, fcntl.LOCK_EX)      # checks may run concurrently: one MIR dump at a time in the shared scratch target dir
+    try:
+        return _load_program_locked(repo, scratch, deps, prog, info, t0)
+    finally:
+        fcntl.flock(lock, fcntl.LOCK_UN); lock.close()
+
+
+def _load_program_locked(repo, scratch, deps, prog, info, t0):
+    import time
     txt = dump_mir(repo, scratch)
     parse_program(txt, repo, prog, 'rws')
     info['mir_lines']['rws'] = txt.count('\n'); info['mir_sha256']['rws'] = hashlib.sha256(txt.encode()).hexdigest()[:16]
@@ -589,8 +600,6 @@ def load_program(repo='/repo', scratch=None, deps=('url-build-parse', 'url-searc
         root = dep_dir(d + '-')
         parse_program(t, root or repo, prog, d)
         info['mir_lines'][d] = t.count('\n'); info['mir_sha256'][d] = hashlib.sha256(t.encode()).hexdigest()[:16]
-    for (manifest, root) in extra:
-        pass
     learn_field_names(prog)
     info['dump_s'] = round(time.time() - t0, 2)
     info['functions'] = len(prog.fns)
